@@ -91,6 +91,21 @@ func (g *gen) draw(lo, hi int, what string) int {
 
 func (g *gen) chance(pct int, what string) bool { return g.draw(0, 99, what) < pct }
 
+// rare is a fair coin with probability pct/100 (rapid's integer ranges favour
+// small values, which makes chance() fire more often than its number says: fine
+// for shapes, not for near misses that cost an accepted program). It shrinks
+// towards "no".
+func (g *gen) rare(pct int, what string) bool {
+	g.label++
+	v := 0
+	for i := 0; i < 7; i++ {
+		if rapid.Bool().Draw(g.t, fmt.Sprintf("%s_%d_%d", what, g.label, i)) {
+			v |= 1 << i
+		}
+	}
+	return v >= 128-(pct*128+99)/100
+}
+
 func pow2(k int) *big.Int { return new(big.Int).Lsh(big.NewInt(1), uint(k)) }
 
 func typeMax(width int) *big.Int { return new(big.Int).Sub(pow2(width), big.NewInt(1)) }
@@ -620,7 +635,7 @@ func (g *gen) stmt(budget int) {
 			}
 			// sound when the source's element range fits the destination's; the other
 			// direction is the known-finding shape K1 (accepted by an unsound checker)
-			if a2.emax.Cmp(a1.emax) > 0 && (g.o.excluded("K1-container-assign-across-refinements") || !g.chance(60, "k1")) {
+			if a2.emax.Cmp(a1.emax) > 0 && (g.o.excluded("K1-container-assign-across-refinements") || !g.rare(35, "k1")) {
 				continue
 			}
 			g.line("%s = %s", a1.name, a2.name)
@@ -636,7 +651,7 @@ func (g *gen) stmt(budget int) {
 		g.constOpStmt()
 	case kind == 23 && budget > 0 && !g.inIter:
 		g.deepBreakLoop(budget - 1)
-	case kind == 24 && !g.impure && len(g.helps) > 0 && g.chance(30, "pureimpure"):
+	case kind == 24 && !g.impure && len(g.helps) > 0 && g.rare(10, "pureimpure"):
 		// near miss: a bare impure call inside a pure function must be rejected by the tree
 		e, _ := g.expr(32, typeMax(32), 1)
 		g.line("this.%s!(a: %s)", g.helps[g.draw(0, len(g.helps)-1, "help")], e)
@@ -832,7 +847,7 @@ func (g *gen) guardedIndex() {
 		return
 	}
 	off := 0
-	if g.chance(20, "ginear") {
+	if g.rare(15, "ginear") {
 		off = 1 // near miss: admits v == n
 	}
 	use := func() {
@@ -1611,7 +1626,7 @@ func Gen(t *rapid.T, pkg string, o *Options) Prog {
 		// a pure method that reads a row through a local slice; storing through that
 		// slice is a shape only a checker with a hole in its read-only types accepts
 		fmt.Fprintf(w, "pub func foo.peek_g0() base.u64 {\n    var s : roslice base.u8\n    var i : base.u32\n    var t : base.u64\n    while i < 4 {\n        s = this.g0[i][0 .. %d]\n        t = ((t ~mod* 257) ~mod+ (s[0] as base.u64))\n        i += 1\n    }\n    return t\n}\n\n", nested)
-		if g.chance(30, "nestedwrite") {
+		if g.rare(12, "nestedwrite") {
 			fmt.Fprintf(w, "pub func foo.poke_g0() base.u64 {\n    var s : slice base.u8\n    s = this.g0[%d][0 .. %d]\n    s[%d] = %d\n    return s[0] as base.u64\n}\n\n", g.draw(0, 3, "pokerow"), nested, g.draw(0, nested-1, "pokecol"), g.draw(1, 255, "pokeval"))
 		}
 		fmt.Fprintf(w, "pub func foo.fill_g0!(v: base.u8) {\n    var i : base.u32\n    while i < 4 {\n        this.g0[i][0] = args.v\n        this.g0[i][%d] = args.v ~mod+ (i as base.u8)\n        i += 1\n    }\n}\n\n", nested-1)
@@ -1705,7 +1720,7 @@ func Gen(t *rapid.T, pkg string, o *Options) Prog {
 		g.startFunc(false, false, nil)
 		g.retZero = "return 0"
 		g.stmts(g.draw(1, 5, "ncalcst"), 1)
-		if g.chance(20, "calcimpure") {
+		if g.rare(8, "calcimpure") {
 			switch {
 			case len(g.helps) > 0 && g.chance(60, "calchelp"):
 				e, _ := g.expr(32, typeMax(32), 1)
